@@ -145,7 +145,8 @@ pub fn gen_case2(prop: &str, tier: Tier, _seed: u64, idx: u64, r: &mut Rng) -> O
         "C13" => {
             // representative histories: shape chosen by index so that every layout is covered
             let shape = idx % 12;
-            let o = GenOpts { hostile_pct: 0, reorder_pct: if shape % 3 == 2 { 100 } else { 0 }, audio_pct: if shape % 2 == 1 { 100 } else { 0 }, meta_pct: if shape % 4 >= 2 { 100 } else { 0 }, encode_pct: 0, consuming: false, max_video: if shape == 0 { 1 } else { 6 }, max_audio: 6, big_frames: thorough && shape == 11, ..Default::default() };
+            let small = std::env::var("VH_SMALL").is_ok();
+            let o = GenOpts { hostile_pct: 0, reorder_pct: if shape % 3 == 2 { 100 } else { 0 }, audio_pct: if shape % 2 == 1 { 100 } else { 0 }, meta_pct: if shape % 4 >= 2 { 100 } else { 0 }, encode_pct: 0, consuming: false, max_video: if shape == 0 { 1 } else if small { 2 } else { 6 }, max_audio: if small { 2 } else { 6 }, big_frames: thorough && shape == 11 && !small, ..Default::default() };
             let mut h = gen_history(r, &o);
             if shape == 4 {
                 // zero-frame file
@@ -210,7 +211,13 @@ pub fn gen_case2(prop: &str, tier: Tier, _seed: u64, idx: u64, r: &mut Rng) -> O
                     // writes): what the equivalent finish entry points leave behind must agree too
                     let mut o3 = o.clone();
                     o3.finish_games = r.chance(1, 3);
-                    Case::Hist { h: gen_history(r, &o3), side: Side::default() }
+                    let mut h = gen_history(r, &o3);
+                    if h.cfg.lang.is_some() && r.chance(1, 4) {
+                        // what command lines and OS locales hand over: upper / mixed case, region
+                        // suffixes (whatever is stored, both ways of setting it must agree)
+                        h.cfg.lang = Some(r.pick(&["ENG", "Eng", "en-US", "pt_BR", "DEU"]).to_string());
+                    }
+                    Case::Hist { h, side: Side::default() }
                 }
                 _ => {
                     // encode-only history for the convenience-path comparison
@@ -408,8 +415,8 @@ pub fn c16_case(r: &mut Rng, idx: u64) -> Case {
         }
         7 => {
             // dimensions 65535 / 65536
-            cfg.width = *r.pick(&[65_535u32, 65_536, 65_537, 1 << 17]);
-            cfg.height = *r.pick(&[65_535u32, 65_536, 480]);
+            cfg.width = *r.pick(&[65_535u32, 65_536, 65_537, 1 << 17, 0]);
+            cfg.height = *r.pick(&[65_535u32, 65_536, 480, 0]);
             ops.push(Op::wv(0.0, kf(r, cfg.vcodec), true));
         }
         8 => {
@@ -497,6 +504,20 @@ pub fn c16_case(r: &mut Rng, idx: u64) -> Case {
 }
 
 fn hexify(r: &mut Rng, data: &[u8]) -> Vec<u8> {
+    if r.chance(1, 5) {
+        // a dump wrapped at a fixed column, odd widths included (digit pairs split across lines)
+        let digits: String = data.iter().map(|b| format!("{:02x}", b)).collect();
+        let w = *r.pick(&[1usize, 3, 5, 7, 15, 31, 2, 16, 64]);
+        let mut out = String::new();
+        for (i, c) in digits.chars().enumerate() {
+            if i > 0 && i % w == 0 {
+                out.push_str(if r.chance(1, 8) { "\r\n" } else { "\n" });
+            }
+            out.push(c);
+        }
+        out.push('\n');
+        return out.into_bytes();
+    }
     let mut s = String::new();
     let upper = r.chance(1, 4);
     for (i, b) in data.iter().enumerate() {
@@ -696,6 +717,11 @@ fn c20_case(r: &mut Rng) -> CliCase {
     }
     if r.chance(1, 3) {
         c.language = Some(crate::gen::hist::langs(r));
+    }
+    if r.chance(1, 12) {
+        c.out_kind = 1 + r.below(2) as u8;
+        c.intent = "invalid:output-unwritable".into();
+        return c;
     }
     // break it in one documented way
     if r.chance(2, 5) {
